@@ -1,23 +1,36 @@
 import EyeballVerif.Driver.Text
+import EyeballVerif.Driver.Vec
 open EV
 
-def stepLine (line : String) : String :=
-  match line.trimAscii.toString.splitOn " " with
+structure DState where
+  ov : OV Nat := OV.new 16
+
+def stepLine (st : DState) (line : String) : DState × String :=
+  let toks := (line.trimAscii.toString.splitOn " ").filter (· ≠ "")
+  match toks with
   | ["diff.apply", d, l] =>
     match parseDiff d, parseList l with
-    | some d, some l => showOptList (d.apply l)
-    | _, _ => "bad-op"
+    | some d, some l => (st, showOptList (d.apply l))
+    | _, _ => (st, "bad-op")
   | ["diff.mapapply", f, d, l] =>
     match f.toNat?.bind mapFn, parseDiff d, parseList l with
-    | some f, some d, some l => (d.map f).show ++ " " ++ showOptList ((d.map f).apply (l.map f))
-    | _, _, _ => "bad-op"
-  | _ => "bad-op"
+    | some f, some d, some l => (st, (d.map f).show ++ " " ++ showOptList ((d.map f).apply (l.map f)))
+    | _, _, _ => (st, "bad-op")
+  | _ =>
+    match vecStep st.ov toks with
+    | some (ov, out) => ({ st with ov }, out)
+    | none => (st, "bad-op")
 
-partial def loop (h : IO.FS.Stream) (out : IO.FS.Stream) : IO Unit := do
+partial def loop (h : IO.FS.Stream) (out : IO.FS.Stream) (st : DState) : IO Unit := do
   let line ← h.getLine
   if line.isEmpty then return ()
-  if line.startsWith "#" then out.putStr line else out.putStrLn (stepLine line)
-  loop h out
+  if line.startsWith "#" then
+    out.putStr line
+    loop h out {}
+  else
+    let (st', o) := stepLine st line
+    out.putStrLn o
+    loop h out st'
 
 def main : IO Unit := do
-  loop (← IO.getStdin) (← IO.getStdout)
+  loop (← IO.getStdin) (← IO.getStdout) {}
